@@ -66,6 +66,8 @@ class WorkerRun:
         self.args = InMemoryBucketBroker() if sc.get("args_broker", False) else None
         self.conn = Connection(self.broker, self.args, self.results)
         self.plans = {j["id"]: j["plan"] for j in sc["jobs"]}
+        self.runner = None
+        self.inject = None
         self.policy_spec = sc.get("policy", {"kind": "const", "us": 0})
         self.jobs: dict[str, Job] = {}
         self._install_spies()
@@ -118,6 +120,19 @@ class WorkerRun:
                         recurring=params.delay.defer_by is not None)
                 return key, payload, params
             cons.consume = consume
+            lat = self.sc.get("consumer_latency_us", 0)
+            if lat:
+                # a consumer whose pause()/unpause() really take a round trip (as on a networked broker)
+                op, ou = cons.pause, cons.unpause
+
+                async def pause():
+                    await asyncio.sleep(lat / 1e6)
+                    await op()
+
+                async def unpause():
+                    await asyncio.sleep(lat / 1e6)
+                    await ou()
+                cons.pause, cons.unpause = pause, unpause
             return cons
         b.get_consumer = get_consumer
         if self.results is not None:
@@ -233,7 +248,48 @@ class WorkerRun:
         self.jobs[j["id"]] = job
         await job.enqueue()
 
+    def _runner_snap(self):
+        r = self.runner
+        return (r._limiter._value, len(r._tasks), r._tasks_processed, r.stop_consume_event.is_set())
+
+    def _on_callback(self, idx: int) -> None:
+        if self.runner is None:
+            return
+        s = self._runner_snap()
+        if not self.runner_snaps or self.runner_snaps[-1][1] != s:
+            self.runner_snaps.append((idx, s, CLOCK.us))
+        if self.running > self.limit_seen:
+            self.over_limit.append({"cb": idx, "t": CLOCK.us, "running": self.running})
+        if self.inject is not None:
+            self.inject(idx)
+
     async def run_worker(self, *, limit=None, tasks_limit=1000, graceful=25.0, horizon_s=120.0, signals=True):
+        import repid.worker as rw
+        orig_runner = rw._Runner
+        me = self
+        self.runner = None
+        self.runner_snaps: list = []
+        self.over_limit: list = []
+        self.limit_seen = tasks_limit
+        self.inject = getattr(self, "inject", None)
+
+        class SpyRunner(orig_runner):  # type: ignore[misc, valid-type]
+            def __init__(self, *a, **kw):
+                super().__init__(*a, **kw)
+                me.runner = self
+                me.ev("runner_created")
+        rw._Runner = SpyRunner
+        loop = asyncio.get_running_loop()
+        prev_hook = loop.on_callback
+        loop.on_callback = self._on_callback
+        try:
+            return await self._run_worker(limit=limit, tasks_limit=tasks_limit, graceful=graceful, horizon_s=horizon_s,
+                                          signals=signals)
+        finally:
+            rw._Runner = orig_runner
+            loop.on_callback = prev_hook
+
+    async def _run_worker(self, *, limit=None, tasks_limit=1000, graceful=25.0, horizon_s=120.0, signals=True):
         w = Worker(routers=[self.router], messages_limit=limit if limit is not None else float("inf"),
                    tasks_limit=tasks_limit, graceful_shutdown_time=graceful,
                    handle_signals=None if signals else [], _connection=self.conn)
